@@ -5,6 +5,7 @@ import (
 	"math/rand"
 	"net"
 	"net/netip"
+	"os"
 	"runtime"
 	"sync/atomic"
 	"time"
@@ -85,6 +86,34 @@ func runC09Disc(o *opts) (*summary, error) {
 	g1, f1 := settle()
 	w.put(M{"op": "Quiesce", "what": "discovery-flood", "disturbed": disturbed, "jitter_us": jm.max(), "calls": n, "listed": listed, "floods": floods, "goroutines_before": g0, "goroutines_after": g1, "fds_before": f0, "fds_after": f1,
 		"elapsed_max_ms": int(maxElapsed / time.Millisecond), "elapsed_min_ms": int(minElapsed / time.Millisecond), "T_ms": int(timeout / time.Millisecond)}, "quiesce", "discovery-flood")
+	// the event listener asked to listen on an address that is in use (started twice, say): every attempt returns an
+	// error promptly - and leaves no goroutine or socket behind
+	{
+		held := listenUDP()
+		laddr := udpAddrPort(held)
+		ul := uhppote.NewUHPPOTE(bind, types.BroadcastAddr{AddrPort: udpAddrPort(bc)}, types.ListenAddr{AddrPort: laddr}, timeout, nil, false)
+		gl0, fl0 := settle()
+		attempts, failed, stuck := 20, 0, 0
+		for i := 0; i < attempts; i++ {
+			q := make(chan os.Signal, 1)
+			done := make(chan error, 1)
+			go func() { done <- ul.Listen(&nullListener{}, q) }()
+			select {
+			case err := <-done:
+				if err != nil {
+					failed++
+				}
+			case <-time.After(2 * time.Second):
+				stuck++
+				q <- os.Interrupt
+			}
+		}
+		held.Close()
+		gl1, fl1 := settle()
+		w.put(M{"op": "Quiesce", "what": "listen-on-busy-port", "disturbed": true, "calls": attempts, "failed": failed, "stuck": stuck,
+			"goroutines_before": gl0, "goroutines_after": gl1, "fds_before": fl0, "fds_after": fl1 - 0,
+			"elapsed_max_ms": 0, "elapsed_min_ms": 1 << 20, "T_ms": 0}, "quiesce", "listen-busy")
+	}
 	return w.close(), nil
 }
 
@@ -129,8 +158,12 @@ func discoveryDatagram(rng *rand.Rand, lt *layoutTables, cls string, prev []byte
 		m[1] = []byte{0x92, 0x20, 0x96, 0x00}[rng.Intn(4)]
 	case "badbcd":
 		m[28+rng.Intn(4)] |= byte(0xa+rng.Intn(6)) << uint(4*rng.Intn(2))
-	case "baddate": // decimal but not a calendar date
-		m[30], m[31] = bcd2(13+rng.Intn(80)), bcd2(1+rng.Intn(28))
+	case "baddate": // decimal but not a calendar date: month 13.., or a day the month does not have
+		if rng.Intn(2) == 0 {
+			m[30], m[31] = bcd2(13+rng.Intn(80)), bcd2(1+rng.Intn(28))
+		} else {
+			copy(m[28:32], [][]byte{{0x20, 0x23, 0x02, 0x30}, {0x20, 0x21, 0x04, 0x31}, {0x20, 0x23, 0x02, 0x29}, {0x21, 0x00, 0x02, 0x29}, {0x20, 0x24, 0x06, 0x00}, {0x20, 0x24, 0x11, 0x31}}[rng.Intn(6)])
+		}
 	}
 	return m
 }
